@@ -8,6 +8,8 @@ TRUSTED = [
     "the compose-id and decoder patterns regenerated from /repo",
     "extraction (ExtrOcamlBasic only) + runner/driver.ml + wire format",
     "hand model of the decoder (last 8-digit window) tied to the code by differential runs",
+    "create_compose_id is modelled as a function of the object's current fields: each description is evaluated on a fresh object "
+    "and on one long-lived object whose fields are re-assigned from case to case, and the two must agree",
 ]
 N = {"quick": 4000, "thorough": 80000}
 
@@ -19,6 +21,8 @@ def run(chk):
     cases = S.generate(rng, N[chk.tier])
 
     def oracle(a, r):
+        if r[0] == "err" and r[1] == "HistoryDependent":
+            return "create_compose_id depends on earlier field values of the same object: %s" % (r[2] if len(r) > 2 else "")
         if r[0] == "err":
             if a["ct"] in R["COMPOSE_TYPES"]:
                 return "create_compose_id refused a valid description: %r" % (r,)
